@@ -90,7 +90,9 @@ def reference_projection(A0, W, t, max_proj=10000):
     w = W.ravel()
     wn = np.linalg.norm(w)
     margin = np.inf
+    reference_projection.turns = 0
     for _ in range(max_proj):
+        reference_projection.turns += 1
         x = A.ravel()
         if w.dot(x) > t:
             x = x + (t / wn - (w / wn).dot(x)) * (w / wn)
@@ -231,6 +233,27 @@ def run_case(spec):
             # never obtains a feasible iterate and hands back the initial matrix
             return dict(evals=0, sigs=[], viol=[], states=0, transitions=0, stats={'skipped_first_projection_does_not_converge': 1},
                         sample={'learner': 'MMC', 'dataset': dsn, 'init': ini, 'skipped': 'first projection does not converge in max_proj steps'})
+        # (1) a tolerance so large that convergence is declared in the very cycle that accepts the first projection, and
+        # (2) max_proj equal to exactly the number of turns that first projection needs (counted by the reference, used only
+        #     when the reference's stopping decision had a clear margin): both are inside the documented domain, the result
+        #     must be the accepted (feasible) iterate - not the initial matrix
+        k_turns = reference_projection.turns
+        _, margin0 = reference_projection(A0, W, t)
+        extra = [('tol=0.5', dict(tol=0.5, max_iter=K)), ('tol=1e6', dict(tol=1e6, max_iter=K))]
+        if margin0 > 1e-6:
+            extra += [('max_proj=turns_needed(%d)' % k_turns, dict(max_proj=k_turns, max_iter=mi_)) for mi_ in (1, 3)]
+        for lab_, kw_ in extra:
+            est = ml.MMC(init=iv, random_state=1, **kw_)
+            try:
+                est.fit(P.copy(), y.copy())
+            except Exception as e:
+                viol.append(V(site, 'raises', 'fit raised %s: %s [%s]' % (type(e).__name__, str(e)[:120], lab_), tr + [lab_]))
+                continue
+            evals += 1
+            states += 1
+            trans += 1
+            judge_full(site, est.get_mahalanobis_matrix(), A0, pos_diff, neg_diff, tr + [lab_], viol, stats)
+            sigs.add((dsn, ini, lab_.split('(')[0], est.n_iter_))
         for tol_ in (1e-3, 1e-6):
           tr = ['init=' + ini, 'tol=%g' % tol_]
           prev = None
